@@ -162,10 +162,13 @@ type c15Delivery struct {
 	Anomalies []string        `json:"anomalies,omitempty"`
 	Flight    int32           `json:"flight"`
 
+	Groups    int             `json:"router_handlers"` // router handlers (cqrs handlers / groups) on the same processor
+
 	mu     sync.Mutex
 	msg    *message.Message
 	inPre  bool
 	script map[int][2]int
+	subIdx int
 }
 
 func (d *c15Delivery) rec(ev ...interface{}) {
@@ -522,6 +525,7 @@ func (s *c15Scenario) run(sIdx int) ([]*c15Delivery, error) {
 	n := len(s.htypes)
 	subs := make([]*script.Subscriber, n)
 	topics := make([]string, n)
+	var groups [][]int
 	s.hids = map[any]int{}
 	hf := func(hid int) func(context.Context, any) error {
 		return func(ctx context.Context, v any) error { return s.handle(hid, ctx, v) }
@@ -655,6 +659,17 @@ func (s *c15Scenario) run(sIdx int) ([]*c15Delivery, error) {
 			hs[i] = c15GroupHandler(ty, hf(i))
 			s.hids[hs[i]] = i
 		}
+		// 1..3 groups on ONE processor instance; the handlers are dealt to the groups in order
+		ng := 1 + s.rng.Intn(3)
+		if ng > n {
+			ng = n
+		}
+		groups = make([][]int, ng)
+		for i := 0; i < n; i++ {
+			g := i * ng / n
+			groups[g] = append(groups[g], i)
+		}
+		groupOf := map[any]string{}
 		cfg := cqrs.EventGroupProcessorConfig{
 			GenerateSubscribeTopic: func(p cqrs.EventGroupProcessorGenerateSubscribeTopicParams) (string, error) {
 				s.reg("gtopic", s.in.ID(p.EventGroupName), len(p.EventGroupHandlers))
@@ -662,14 +677,15 @@ func (s *c15Scenario) run(sIdx int) ([]*c15Delivery, error) {
 			},
 			SubscriberConstructor: func(p cqrs.EventGroupProcessorSubscriberConstructorParams) (message.Subscriber, error) {
 				s.reg("gsub", s.in.ID(p.EventGroupName), len(p.EventGroupHandlers))
-				return newSub(0), nil
+				g, _ := strconv.Atoi(p.EventGroupName[1:])
+				return newSub(g), nil
 			},
 			Marshaler:         m,
 			AckOnUnknownEvent: s.ackUnk,
 		}
 		if s.onHandle != 0 {
 			cfg.OnHandle = func(p cqrs.EventGroupProcessorOnHandleParams) error {
-				if p.GroupName != "g" {
+				if p.GroupName != groupOf[p.Handler] {
 					return errors.New("wrong group name")
 				}
 				return s.onHandleHook(p.Handler, p.EventName, p.Event, p.Message, func(ctx context.Context) error { return p.Handler.Handle(ctx, p.Event) })
@@ -679,10 +695,17 @@ func (s *c15Scenario) run(sIdx int) ([]*c15Delivery, error) {
 		if err != nil {
 			return nil, err
 		}
-		if err := gp.AddHandlersGroup("g", hs...); err != nil {
-			return nil, err
+		for g, members := range groups {
+			ghs := []cqrs.GroupEventHandler{}
+			for _, i := range members {
+				ghs = append(ghs, hs[i])
+				groupOf[hs[i]] = fmt.Sprintf("g%d", g)
+			}
+			if err := gp.AddHandlersGroup(fmt.Sprintf("g%d", g), ghs...); err != nil {
+				return nil, err
+			}
+			topics[g] = fmt.Sprintf("grp.g%d", g)
 		}
-		topics[0] = "grp.g"
 	}
 
 	// the deliveries
@@ -693,21 +716,17 @@ func (s *c15Scenario) run(sIdx int) ([]*c15Delivery, error) {
 		pid := s.tab.addPayload(raw.payload)
 		targets := [][]int{}
 		if s.kind == 2 {
-			all := make([]int, n)
-			for i := range all {
-				all[i] = i
-			}
-			targets = append(targets, all)
+			targets = append(targets, groups...)
 		} else {
 			for i := 0; i < n; i++ {
 				targets = append(targets, []int{i})
 			}
 		}
-		for _, tg := range targets {
+		for tgIdx, tg := range targets {
 			id := fmt.Sprintf("s%d-d%d", sIdx, atomic.AddInt64(&c15Seq, 1))
 			d := &c15Delivery{ID: id, Tab: s.tabIdx, Kind: s.kind, AckErrors: s.ackErrors, AckUnk: s.ackUnk, OnHandle: s.onHandle,
 				UUID: s.in.ID(id), Payload: pid, Tag: 1 + s.rng.Intn(5), Stale: s.rng.Intn(6) == 0, Source: raw.source, Sent: raw.sent,
-				Ctor: "config", Settles: []bool{}, Trace: [][]interface{}{}, script: map[int][2]int{}}
+				Ctor: "config", Settles: []bool{}, Trace: [][]interface{}{}, script: map[int][2]int{}, subIdx: tgIdx, Groups: len(targets)}
 			if s.depr {
 				d.Ctor = "deprecated"
 			}
@@ -752,10 +771,7 @@ func (s *c15Scenario) run(sIdx int) ([]*c15Delivery, error) {
 		wg.Add(1)
 		go func(d *c15Delivery) {
 			defer wg.Done()
-			hid := d.Handlers[0][0]
-			if s.kind == 2 {
-				hid = 0
-			}
+			hid := d.subIdx
 			if subs[hid] == nil || !subs[hid].Emit(topics[hid], d.msg, 10*time.Second) {
 				d.anomaly("message not taken by the router handler (no subscription on the generated topic)")
 				return
@@ -1232,8 +1248,13 @@ func cmdC15(args []string) error {
 		}
 		pool := s.typePool()
 		nh := []int{1, 1, 2, 3, 3, 4, 5}[rng.Intn(7)]
+		dupP := 4
+		if s.kind == 2 {
+			nh = []int{1, 2, 3, 4, 5, 6, 6}[rng.Intn(7)]
+			dupP = 6
+		}
 		for j := 0; j < nh; j++ {
-			if j > 0 && rng.Intn(10) < 4 {
+			if j > 0 && rng.Intn(10) < dupP {
 				s.htypes = append(s.htypes, s.htypes[rng.Intn(j)])
 			} else {
 				s.htypes = append(s.htypes, pool[rng.Intn(len(pool))])
